@@ -14,7 +14,7 @@ from inscripta.biocantor.exc import (
 )
 from inscripta.biocantor.gene.cds_frame import CDSPhase, CDSFrame
 from inscripta.biocantor.gene.codon import Codon, TranslationTable
-from inscripta.biocantor.gene.interval import AbstractFeatureInterval, QualifierValue
+from inscripta.biocantor.gene.interval import AbstractFeatureInterval, QualifierValue, sort_interval_lists
 from inscripta.biocantor.io.bed import RGB, BED12
 from inscripta.biocantor.io.gff3.constants import GFF_SOURCE, NULL_COLUMN, BioCantorFeatureTypes, BioCantorQualifiers
 from inscripta.biocantor.io.gff3.rows import GFFAttributes, GFFRow
@@ -52,6 +52,7 @@ class CDSInterval(AbstractFeatureInterval):
         parent_or_seq_chunk_parent: Optional[Parent] = None,
     ):
 
+        cds_starts, cds_ends, frames_or_phases = sort_interval_lists(cds_starts, cds_ends, frames_or_phases)
         self._location = self.initialize_location(cds_starts, cds_ends, strand, parent_or_seq_chunk_parent)
         self._genomic_starts = cds_starts
         self._genomic_ends = cds_ends
